@@ -80,6 +80,20 @@ func histFixture() string {
 	return histFix
 }
 
+var histBinDir string
+
+// histBin: a directory with one executable, `verif-path-tool`, that is on no PATH of the process
+func histBin() string {
+	if histBinDir == "" {
+		d, err := os.MkdirTemp("", "verif-histbin")
+		must(err)
+		cleanups = append(cleanups, func() { os.RemoveAll(d) })
+		os.WriteFile(filepath.Join(d, "verif-path-tool"), []byte("#!/bin/sh\necho tool-ran\n"), 0o755)
+		histBinDir = d
+	}
+	return histBinDir
+}
+
 func (c xCtx) toContext() carapace.Context {
 	if c.Dir == "$HISTFIX" {
 		c.Dir = histFixture()
@@ -93,6 +107,11 @@ func (c xCtx) toContext() carapace.Context {
 	}
 	if c.Env != nil {
 		ctx.Env = append([]string{}, c.Env...)
+		for i, e := range ctx.Env {
+			if e == "PATH=$HISTBIN" {
+				ctx.Env[i] = "PATH=" + histBin()
+			}
+		}
 	}
 	return ctx
 }
@@ -164,9 +183,21 @@ func (b *builder) build(x *xExpr) carapace.Action {
 	case "cached":
 		// a member whose callback sits behind the file cache (one call site, the key is the member's number)
 		id := itoa(x.N)
+		if x.S == "meta" {
+			// the cached result carries a no-space set, a usage text, descriptions, styles and tags: a hit must hand all of it back
+			return carapace.ActionCallback(func(c carapace.Context) carapace.Action {
+				return carapace.ActionStyledValuesDescribed("cm"+id+"/", "first", "red", "cm"+id+"b", "second", "blue").Tag("cached tag").NoSpace('/').Usage("cached usage " + id)
+			}).Cache(time.Minute, key.String("meta member", id))
+		}
 		return carapace.ActionCallback(func(c carapace.Context) carapace.Action {
 			return carapace.ActionValues("ca" + id)
 		}).Cache(time.Minute, key.String("member", id))
+	case "execpath":
+		// an external command looked up by name: which file runs depends on the PATH of the process alone (exec.Command resolves
+		// the name when the command is built) - never on what an earlier invocation under another Context did
+		return carapace.ActionExecCommand("verif-path-tool")(func(output []byte) carapace.Action {
+			return carapace.ActionValues(strings.TrimSpace(string(output)))
+		})
 	case "timedEcho":
 		// answers `<value>-done`, slowly when the value starts with `slow`; under a Timeout that the slow answers miss
 		return carapace.ActionCallback(func(c carapace.Context) carapace.Action {
@@ -238,6 +269,13 @@ func (b *builder) build(x *xExpr) carapace.Action {
 		return b.build(x.E).Suffix(x.S)
 	case "style":
 		return b.build(x.E).Style(x.S)
+	case "styleR":
+		// style by reference: the referenced string gets its final value (the user's style configuration is loaded)
+		// after the Action was built and before it is invoked; the style at invocation time counts
+		cur := "bg-red bold"
+		a := b.build(x.E).StyleR(&cur)
+		cur = x.S
+		return a
 	case "tag":
 		return b.build(x.E).Tag(x.S)
 	case "usage":
@@ -741,6 +779,9 @@ func genExpr(r *rng, depth int) *xExpr {
 	case 6:
 		return &xExpr{K: "sfx", S: pick(r, []string{"", "/", "=", "s"}), E: inner()}
 	case 7:
+		if r.chance(30) {
+			return &xExpr{K: "styleR", S: pick(r, []string{"", "red", "bold", "bg-red bold"}), E: inner()}
+		}
 		return &xExpr{K: "style", S: pick(r, []string{"", "red", "bold"}), E: inner()}
 	case 8:
 		return &xExpr{K: "tag", S: pick(r, []string{"", "t2", "files"}), E: inner()}
@@ -1001,6 +1042,25 @@ func genHistory(r *rng, tier string) interface{} {
 		in.Steps = []historyStep{{E: 0, Ctx: xCtx{Value: "slow1"}}, {E: 0, Ctx: xCtx{Value: pick(r, []string{"quick2", "q"})}, Pause: 350}, {E: 0, Ctx: xCtx{Value: "quick3"}}}
 		if r.chance(50) {
 			in.Steps = append([]historyStep{{E: 0, Ctx: xCtx{Value: "quick0"}}}, in.Steps...)
+		}
+		return in
+	}
+	if r.chance(3) {
+		// a result behind the file cache with everything a result can carry: the first invocation computes and stores it, the
+		// later ones read it back
+		in.Table = []*xExpr{{K: "cached", N: r.intn(3), S: "meta", Opaque: true}}
+		c := xCtx{Value: pick(r, []string{"", "c", "cm"})}
+		in.Steps = []historyStep{{E: 0, Ctx: c}, {E: 0, Ctx: c}, {E: 0, Ctx: c}}
+		return in
+	}
+	if r.chance(2) {
+		// an external command under Contexts with and without a PATH of their own, in turn
+		in.Table = []*xExpr{{K: "execpath", Opaque: true}}
+		c0 := xCtx{Value: ""}
+		c1 := xCtx{Value: "", Env: []string{"OTHER=1", "PATH=$HISTBIN"}}
+		in.Steps = []historyStep{{E: 0, Ctx: c0}, {E: 0, Ctx: c1}, {E: 0, Ctx: c0}}
+		if r.chance(40) {
+			in.Steps = []historyStep{{E: 0, Ctx: c1}, {E: 0, Ctx: c0}, {E: 0, Ctx: c1}, {E: 0, Ctx: c0}}
 		}
 		return in
 	}
